@@ -11,7 +11,8 @@ ORACLES = ("priority", "values", "no_internal_error")
 RULE = (
     "cases = call-only DAG programs (3-9 sites, wide, priorities -3..5 with forced ties, sequential flags, three "
     "resources, max_concurrency 1..4, both flavours, ~40% executed through executor(target/exclude/root), some with "
-    "priorities applied by config_from_dict); controlled schedules only (sampled choice vectors and exhaustive choice "
+    "priorities applied by config_from_dict, 0-2 debug sites with RUN_DEBUG_NODES on or off, 0-3 setup sites and one case in seven being dag.setup(target_nodes=...) "
+    "instead of a call); controlled schedules only (sampled choice vectors and exhaustive choice "
     "trees). oracle: at every dispatch (pool submit, asyncio task creation, inline entry) of node n, no node that the "
     "scheduler can know to be ready (all dependencies observed finished in a returned wait or run inline, itself not "
     "dispatched) has a strictly greater compound priority, compound priority = own + distinct descendants in the "
@@ -35,7 +36,8 @@ def run_case(case: Dict[str, Any]) -> CaseResult:
 
 def strategy(tier: str) -> Any:
     return sc.sched_case(tier=tier, modes=("ctl", "ctl", "ctl-ex"), min_sites=3, max_sites=9, wide=True,
-                         seq_rate=0.12, prio=(-3, 5), config_rate=0.15, sel_rate=0.4, max_mc=4)
+                         seq_rate=0.12, prio=(-3, 5), config_rate=0.15, sel_rate=0.4, max_mc=4,
+                         n_setup=3, setup_call_rate=0.15, n_debug=2)
 
 
 def run_shard(H: Harness) -> None:
